@@ -25,10 +25,10 @@ MODES = ['METADATA', 'HASH']
 
 def families(tier):
     fams = [{'name': 'input', 'params': {'builds': 2}}, {'name': 'integrity', 'params': {'builds': 2}},
-            {'name': 'readback', 'params': {'builds': 2}}]
+            {'name': 'readback', 'params': {'builds': 2}}, {'name': 'readback', 'params': {'builds': 2, 'tamper': True}}]
     if tier == 'thorough':
         fams += [{'name': 'input', 'params': {'builds': 3}}, {'name': 'integrity', 'params': {'builds': 3}},
-                 {'name': 'readback', 'params': {'builds': 3}}]
+                 {'name': 'readback', 'params': {'builds': 3}}, {'name': 'readback', 'params': {'builds': 3, 'tamper': True}}]
     return fams
 
 
@@ -80,13 +80,12 @@ def harness(eng, fam, P):
         eng.check('C13.first-build-ok', impl[0] == 'ok', (fam,), info={'impl': repr(impl[1])[:200]})
         for i in range(P['builds'] - 1):
             old = _meta(w, watch)
-            if fam == 'readback':
+            if fam == 'readback' and not P.get('tamper'):
                 p = w.p('in/x')
                 w.ext_write(p, eng.fresh_int('xcid'), fresh_mtime(eng, w, p))
             else:
                 w.ext_write(watch, eng.fresh_int('xcid'), fresh_mtime(eng, w, watch))
-            if fam != 'readback':
-                new_before = _meta(w, watch)
+            new_before = _meta(w, watch)
             impl, ref = d.build(prog)
             eng.check('C13.build-ok', impl[0] == 'ok', (fam,), info={'impl': repr(impl[1])[:200]})
             new = _meta(w, watch) if fam == 'readback' else new_before
